@@ -7,7 +7,7 @@ from harness import table_scorers as ts
 from harness.engine import coq_bad_cases, coq_eval, coq_list, nlist, zlist, zlit
 
 INFO = {
-    "extra_targets": ["Check/MwCheck.vo", "Check/GenericCheck.vo"],
+    "extra_targets": ["Check/MwCheck.vo", "Check/GenericCheck.vo", "Check/FloatRunCheck.vo"],
     "level": "proof",
     "rule": "integer change scores (formula columns / integer CUSUM numerators with level shifts, p = 1..3) through the real "
             "MovingWindow with integer threshold_: bandwidth 1..6, n in [2b, 36], every admissible min_detection_interval, "
